@@ -10,8 +10,8 @@ Fixpoint unescape_hash (s : str) : str :=
   | [] => []
   | c :: t =>
     match t with
-    | 35 :: t' => if c =? 92 then 35 :: unescape_hash t' else c :: unescape_hash t
-    | _ => c :: unescape_hash t
+    | d :: t' => if (c =? 92) && (d =? 35) then 35 :: unescape_hash t' else c :: unescape_hash t
+    | [] => [c]
     end
   end.
 
